@@ -133,7 +133,7 @@ def compare_path(sevm, ex, env, res, evm, world, opts=None):
     elif "returndatacopy-size0-oob" in evm.flags:
         tag = ["returndatacopy-size0-oob"]
     elif "static-call-with-value" in evm.flags:
-        tag = ["static-call-with-value"]
+        tag = ["static-call-with-value", opts.get("value_kind", "unknown-value")]
     elif "stack>1024" in evm.flags:
         tag = ["stack>1024"]
     if got_cat.startswith("stuck") or got_cat.startswith("other"):
@@ -187,6 +187,9 @@ def compare_path(sevm, ex, env, res, evm, world, opts=None):
             if acc is None or sd is None:
                 continue
             slots = [k for k in acc.storage if k < (1 << 64)][:6] + [0, 1, 7]
+            # plus every scalar slot halmos holds (a leaked write shows up as a non-zero extra slot)
+            if not any(isinstance(k, int) for k in sd._mapping):
+                slots += [key[0] for key in list(sd._mapping)[:8] if key[1] == 0 and key[0] < (1 << 64)]
             for k in slots:
                 try:
                     gv = storage_value(sd, k, env, memo)
@@ -196,6 +199,33 @@ def compare_path(sevm, ex, env, res, evm, world, opts=None):
                 if gv != ev:
                     fails.append((tag + ["storage"], f"addr {a:#x} slot {k}: got {gv:#x} expected {ev:#x}"))
                     break
+    # transient storage (same transaction): slots the reference holds
+    if opts.get("probe_transient", True):
+        for (a, k), ev in sorted(res.world.transient.items()):
+            if k >= (1 << 64):
+                continue
+            sd = ex.transient_storage.get(sym.con_addr(a))
+            try:
+                gv = storage_value(sd, k, env, memo) if sd is not None else 0
+            except symeval.Unbound as e:
+                return fails + [("__uneval__", str(e))]
+            if gv != ev:
+                fails.append((tag + ["transient"], f"addr {a:#x} slot {k}: got {gv:#x} expected {ev:#x}"))
+                break
+        # and slots halmos holds that the reference does not (must read as zero)
+        for a in addrs:
+            sd = ex.transient_storage.get(sym.con_addr(a))
+            if sd is None or any(isinstance(k, int) for k in sd._mapping):
+                continue
+            for key in list(sd._mapping)[:6]:
+                if key[1] == 0 and (a, key[0]) not in res.world.transient:
+                    try:
+                        gv = storage_value(sd, key[0], env, memo)
+                    except symeval.Unbound as e:
+                        return fails + [("__uneval__", str(e))]
+                    if gv != 0:
+                        fails.append((tag + ["transient"], f"addr {a:#x} slot {key[0]}: got {gv:#x} expected 0 (not set in the reference)"))
+                        break
     # logs of successful frames
     if opts.get("check_logs", True):
         try:
